@@ -374,6 +374,13 @@ def contracts(T: Types, reg: Registry, G: dict, variant: str = "C11"):
             ("claims-nothing", no_new_claims), flag_only_down,
         ] + wf_post)], properties=[PID])
     kill.ghost_init = {"g:live": SID}
+    # a status *read* is a scheduling point too: the task threads may act between a read and the write that relies on it (check-then-act)
+    if variant == "C11":
+        import copy as _copy
+        rd = _copy.copy(reg.contracts["Orchestrator.get_invocation_status_record"])
+        rd.event = True
+        rd.effect_events = True
+        reg.contracts["Orchestrator.get_invocation_status_record"] = rd
     kill.step_hooks = [env_step]
     reg.add(kill)
     out.append(kill)
@@ -626,7 +633,7 @@ def more_contracts(T, reg, G, out, L):
     out.append(on_start)
 
 
-PHASES = ["queued", "running", "finished", "retried", "fault", "pause", "waiting-child"]
+PHASES = ["queued", "running", "finished", "retried", "fault", "pause", "waiting-child", "waiting-running-child"]
 
 
 def stop_scenario(backend: str, phases, reclaim: bool, timeout=4.0):
@@ -640,6 +647,7 @@ def stop_scenario(backend: str, phases, reclaim: bool, timeout=4.0):
     with real_app(backend) as app:
         task = app.task(max_retries=3, retry_for=(vt.Retriable,))(vt.gated)
         vt.CHILD_TASK[0] = app.task(vt.child_of)
+        vt.GATED_TASK[0] = task
         runner = ThreadRunner(app)
         app.runner = runner
         app.conf.runner_loop_sleep_time_sec = 0.0
@@ -652,7 +660,7 @@ def stop_scenario(backend: str, phases, reclaim: bool, timeout=4.0):
         names = [f"{ph}#{k}" for k, ph in enumerate(phases)]
         for n in names:
             vt.GATES[n], vt.ENTERED[n] = threading.Event(), threading.Event()
-            vt.MODES[n] = {"retried": "retry", "pause": "pause", "waiting-child": "child"}.get(n.split("#")[0], "ok")
+            vt.MODES[n] = {"retried": "retry", "pause": "pause", "waiting-child": "child", "waiting-running-child": "child-gated"}.get(n.split("#")[0], "ok")
         invs = {}
         started = [n for n in names if not n.startswith("queued")]
         for n in started:
@@ -684,7 +692,7 @@ def stop_scenario(backend: str, phases, reclaim: bool, timeout=4.0):
             deadline = _t.time() + 5
             for n in started:
                 ph = n.split("#")[0]
-                if ph in ("finished", "retried", "fault", "pause", "waiting-child"):
+                if ph in ("finished", "retried", "fault", "pause", "waiting-child", "waiting-running-child"):
                     vt.GATES[n].set()
                 want = {"finished": "SUCCESS", "retried": "RETRY"}.get(ph)
                 while want and _t.time() < deadline and app.orchestrator.get_invocation_status_record(invs[n].invocation_id).status.name != want:
@@ -693,16 +701,20 @@ def stop_scenario(backend: str, phases, reclaim: bool, timeout=4.0):
                     th = runner.threads.get(invs[n].invocation_id)
                     if th is not None:
                         th.thread.join(5)
-                if ph == "waiting-child":
+                if ph in ("waiting-child", "waiting-running-child"):
                     while _t.time() < deadline and invs[n].invocation_id not in runner.waiting_invocation_ids:
                         _t.sleep(0.005)
+                if ph == "waiting-running-child":        # the loop polls again and starts the child in the same runner; the child then blocks on its own gate
+                    vt.GATES[n + ".child"], vt.ENTERED[n + ".child"] = threading.Event(), threading.Event()
+                    runner.runner_loop_iteration()
+                    vt.ENTERED[n + ".child"].wait(5)
             if reclaim:
                 runner._reclaim_available_slots()
             runner.stop_runner_loop()
             stopper = threading.Thread(target=runner.on_stop, daemon=True)
             stopper.start()
             _t.sleep(0.05)
-            for n in names:
+            for n in list(vt.GATES):
                 vt.GATES[n].set()                                # killed bodies return (Python threads cannot be interrupted)
             stopper.join(timeout)
             hung = stopper.is_alive()
@@ -754,8 +766,9 @@ def stop_in_every_phase(ctx: RunCtx) -> BoundedResult:
                     res.failures.append({"what": f"{backend} {phases} reclaim={reclaim}: scenario error {type(e).__name__}: {e}", "finding_key": "scenario-error"})
                     continue
                 if hung:
-                    key = "hang:waiting-child" if "waiting-child" in phases else "hang:" + "+".join(phases)
-                    res.failures.append({"what": f"{backend} phases={phases} reclaim={reclaim}: on_stop() did not return within 4 s (join of a thread that waits on a child nobody runs)",
+                    key = "hang:waiting-child" if "waiting-child" in phases else "hang:" + "+".join(phases)       # (only the queued-child case is the known finding)
+                    res.failures.append({"what": f"{backend} phases={phases} reclaim={reclaim}: on_stop() did not return within 4 s (" +
+                                                 ("join of a thread that waits on a child nobody runs" if "waiting-child" in phases else "a joined thread never ends") + ")",
                                          "finding_key": key, "input": {"backend": backend, "phases": list(phases), "reclaim": reclaim}})
                 for name, (status, owner, queued) in obs.items():
                     ok = status in final or (status in avail and queued and (owner is None or status == "REGISTERED"))
